@@ -511,7 +511,10 @@ func (p *Packer) Unpack(r io.Reader, dst string) error {
 		// left at the same path: it is never created or written through that
 		// link (the parent directories were checked by NewUnpackInfo, the last
 		// path element is checked here).
-		if info.IsDirectory() || info.IsRegular() {
+		// The destination directory itself is not an entry of the archive: if
+		// it is reached through a symlink, an entry such as "./" leaves that
+		// link alone.
+		if (info.IsDirectory() || info.IsRegular()) && info.Path != dst {
 			if fi, err := os.Lstat(info.Path); err == nil && fi.Mode()&os.ModeSymlink != 0 {
 				if err := os.Remove(info.Path); err != nil {
 					return fmt.Errorf("failed to replace symlink %q: %w", info.Path, err)
